@@ -227,7 +227,7 @@ def body(ctx):
         ks = list(range(ncalls))
         for k in ks:
             # other exception classes a transport can raise: a broken pipe on writes, a plain OSError, the USB transport's own errors
-            others = (('epipe',) if calls[k][0] == 'bulk_write' else ()) + (('oserr', 'usb')[k % 2],)
+            others = (('epipe',) if calls[k][0] == 'bulk_write' else ()) + (('oserr', 'usb', 'eintr')[k % 3],)
             for kind in ('timeout', 'reset', 'eof') + (('cancel',) if mode == 'async' else ()) + others:
                 # the fault at call k of the plain scenario (recovery with or without close(), to a peer with the same or a smaller maxdata) ...
                 skip = bool((k + len(kind)) % 2)
